@@ -17,6 +17,7 @@ Mode      == IOEnv.GEN_MODE                 \* "valid" (pairwise disjoint fields
 Bases     == IF "GEN_BASES" \in DOMAIN IOEnv THEN {atoi(IOEnv.GEN_BASES)} ELSE
              {3, 5, 8, 9, 12, 16, 24, 31, 32, 33, 48, 64, 65, 100, 127, 128}
 MaxFields == atoi(IOEnv.GEN_MAXFIELDS)
+Custom    == IF "GEN_CUSTOM" \in DOMAIN IOEnv THEN IOEnv.GEN_CUSTOM = "1" ELSE FALSE     \* rich mode: custom-typed fields, defaults
 Lens      == {1, 2, 3, 4, 5, 7, 8, 12, 16, 24, 32, 64}
 Native    == {8, 16, 32, 64, 128}
 
@@ -26,7 +27,8 @@ gvars == <<decl, ranges, plan, done>>
 Used == IF Mode = "valid" THEN UNION {Cover(decl.fields[j]) : j \in 1..Len(decl.fields)} ELSE {}
 CurBits == UNION {r[1]..r[2] : r \in Ran(ranges)}
 
-Init == /\ \E n \in Bases : \E df \in {<<>>, << <<>> >>} :          \* no default | default = 0
+Init == /\ \E n \in Bases : \E df \in ({<<>>, << <<>> >>} \cup (IF Custom THEN {<< [k \in 1..n |-> k - 1] >>, << [k \in 1..((n + 1) \div 2) |-> 2 * (k - 1)] >>} ELSE {})) :
+             \* no default | default = 0 | (rich mode) all ones | alternating bits
              decl = [id |-> 0, name |-> "T", n |-> n, s |-> StorageOf(n), def |-> df, defform |-> "lit",
                                     defsyn |-> "=", debug |-> FALSE, fields |-> <<>>, enums |-> <<>>, nested |-> <<>>]
         /\ ranges = <<>> /\ plan = [nr |-> 0, arr |-> FALSE] /\ done = FALSE
@@ -48,11 +50,33 @@ ArrayChoices(w, top) ==
   {<<K, s>> \in (2..8) \X {w, w + 1, w + 3, 8, 16, 32} :
       /\ (Len(ranges) = 1 => s >= w)
       /\ top + (K - 1) * s < decl.n}
+(* custom-typed fields: a non-exhaustive bitenum over u<w> read through Option<..>, an exhaustive one (w <= 3), a nested bitfield *)
+EnumNonExhG(w) == [name |-> "O" \o ToString(w), n |-> w, exh |-> "false",
+                   variants |-> IF w = 1 THEN << [name |-> "Z", d |-> <<>>, cfg |-> "none", form |-> "lit", doc |-> FALSE] >>
+                                ELSE IF w = 2 THEN << [name |-> "Z", d |-> <<>>, cfg |-> "none", form |-> "lit", doc |-> FALSE],
+                                                      [name |-> "One", d |-> <<0>>, cfg |-> "none", form |-> "lit", doc |-> FALSE],
+                                                      [name |-> "Ones", d |-> <<0, 1>>, cfg |-> "none", form |-> "lit", doc |-> FALSE] >>
+                                ELSE << [name |-> "Z", d |-> <<>>, cfg |-> "none", form |-> "lit", doc |-> FALSE],
+                                        [name |-> "One", d |-> <<0>>, cfg |-> "none", form |-> "lit", doc |-> FALSE],
+                                        [name |-> "Top", d |-> <<w - 1>>, cfg |-> "none", form |-> "lit", doc |-> FALSE],
+                                        [name |-> "Ones", d |-> [k \in 1..w |-> k - 1], cfg |-> "none", form |-> "lit", doc |-> FALSE] >>]
+BitsSeq(x, w) == LET S == {k \in 0..(w - 1) : (x \div 2^k) % 2 = 1} IN
+                 [i \in 1..Cardinality(S) |-> CHOOSE b \in S : Cardinality({c \in S : c < b}) = i - 1]
+EnumExhG(w) == [name |-> "X" \o ToString(w), n |-> w, exh |-> "true",
+                variants |-> [k \in 1..(2^w) |-> [name |-> "V" \o ToString(2^w - k), d |-> BitsSeq(2^w - k, w), cfg |-> "none", form |-> "lit", doc |-> FALSE]]]
+(* index of an enum / nested definition in the declaration, appending it when new *)
+WithEnum(d, e) == IF \E k \in 1..Len(d.enums) : d.enums[k].name = e.name THEN d ELSE [d EXCEPT !.enums = Append(@, e)]
+EnumIdx(d, nm) == CHOOSE k \in 1..Len(d.enums) : d.enums[k].name = nm
+WithNested(d, nd) == IF \E k \in 1..Len(d.nested) : d.nested[k].name = nd.name THEN d ELSE [d EXCEPT !.nested = Append(@, nd)]
+NestedIdx(d, nm) == CHOOSE k \in 1..Len(d.nested) : d.nested[k].name = nm
+
 Close == /\ ~done /\ plan.nr > 0 /\ Len(ranges) = plan.nr
          /\ LET w   == SumW(ranges)
                 top == CHOOSE h \in {r[2] : r \in Ran(ranges)} : \A r \in Ran(ranges) : r[2] <= h
-                kinds == IF w \in Native THEN {"unat", "inat"}
-                         ELSE IF w = 1 /\ Len(ranges) = 1 THEN {"bool", "uarb"} ELSE {"uarb"}
+                kinds == (IF w \in Native THEN {"unat", "inat"}
+                          ELSE IF w = 1 /\ Len(ranges) = 1 THEN {"bool", "uarb"} ELSE {"uarb"})
+                         \cup (IF Custom /\ w <= 64 THEN {"optenum", "nested"} ELSE {})
+                         \cup (IF Custom /\ w <= 3 THEN {"enum"} ELSE {})
             IN \E kind \in kinds : \E acc \in {"rw", "rw", "w", "r"} :
                  \E ar \in (IF plan.arr /\ ArrayChoices(w, top) # {} THEN ArrayChoices(w, top) ELSE {<<0, 0>>}) :
                    LET f == [name |-> "f" \o ToString(Len(decl.fields)), kind |-> kind, tw |-> w, ty |-> 0,
@@ -60,8 +84,16 @@ Close == /\ ~done /\ plan.nr > 0 /\ Len(ranges) = plan.nr
                              array |-> IF ar[1] = 0 THEN <<>> ELSE <<ar[1]>>,
                              stride |-> IF ar[1] = 0 \/ (Len(ranges) = 1 /\ ar[2] = w) THEN <<>> ELSE <<ar[2]>>,
                              access |-> acc]
+                       d1 == CASE kind = "optenum" -> WithEnum(decl, EnumNonExhG(w))
+                               [] kind = "enum" -> WithEnum(decl, EnumExhG(w))
+                               [] kind = "nested" -> WithNested(decl, [name |-> "N" \o ToString(w), n |-> w])
+                               [] OTHER -> decl
+                       f1 == CASE kind = "optenum" -> [f EXCEPT !.ty = EnumIdx(d1, "O" \o ToString(w))]
+                               [] kind = "enum" -> [f EXCEPT !.ty = EnumIdx(d1, "X" \o ToString(w))]
+                               [] kind = "nested" -> [f EXCEPT !.ty = NestedIdx(d1, "N" \o ToString(w))]
+                               [] OTHER -> f
                    IN /\ (Mode = "valid" => Cover(f) \cap Used = {} /\ ~SelfOverlap(f))
-                      /\ decl' = [decl EXCEPT !.fields = Append(@, f)]
+                      /\ decl' = [d1 EXCEPT !.fields = Append(@, f1)]
          /\ ranges' = <<>> /\ plan' = [nr |-> 0, arr |-> FALSE] /\ UNCHANGED done
 
 Finish == /\ ~done /\ plan.nr = 0 /\ Len(decl.fields) >= 1
